@@ -133,7 +133,8 @@ def run(ctx):
                 ctx, "rand%d" % g, rand_num=nper, seed=ctx.seed * 1000 + g, depth=400, timeout=1500,
                 Names=NAMES_BIG, MaxDepth=6, MaxFiles=40, Sizes="{0, 1, 2, 3, 4, 6, 7, 10}", Tags="{1, 2}", MaxOps=40,
                 MaxChain=2, MaxTries=80, MaxTotal=60, BulkMin=0, BulkMax=20, Concs='{"boundary", "uniform"}', Caps="{0, 1, 2, 3, 7}")))
-        # one directory with 1 000 siblings, once (few other directories: the big one is listed often)
+        # one directory with 1 000 siblings, once (few other directories: the big one is listed often); the harness
+        # adds a sweep over every file of a bundle of more than 1 000 entries
         jobs.append(_staggered(2 + ngen, lambda: _gen(
             ctx, "big", rand_num=1, seed=ctx.seed, depth=200, timeout=1500,
             Names=NAMES_BIG, MaxDepth=3, MaxFiles=3, Sizes="{0, 1, 4, 7}", Tags="{1, 2}", MaxOps=60,
@@ -147,6 +148,13 @@ def run(ctx):
             ctx, "rand0", rand_num=60, seed=ctx.seed, depth=80,
             Names=NAMES_BIG, MaxDepth=4, MaxFiles=4, Sizes="{0, 1, 2, 3, 4, 6, 7}", Tags="{1, 2}", MaxOps=20,
             MaxChain=2, MaxTries=12, MaxTotal=6, BulkMin=0, BulkMax=3, Concs='{"boundary", "uniform"}', Caps="{0, 1, 2, 3}")))
+    if not th:
+        # more than 1 000 entries (up to 3 + 1 001 siblings), a short program and the harness' sweep over every file
+        jobs.append(_staggered(3, lambda: _gen(
+            ctx, "big", rand_num=1, seed=ctx.seed, depth=120, timeout=1500,
+            Names=NAMES_BIG, MaxDepth=3, MaxFiles=3, Sizes="{0, 1, 4, 7}", Tags="{1, 2}", MaxOps=12,
+            MaxChain=1, MaxTries=6, MaxTotal=1004, BulkMin=1001, BulkMax=1001, Concs='{"boundary"}', Caps="{0, 3}",
+            Kinds="{1, 2, 4, 5, 6, 7}")))
     # many reads: one small tree, READS reads only (run under the default limit of 1024 open files)
     jobs.append(_staggered(len(jobs), lambda: _gen(
         ctx, "reads", rand_num=1, seed=ctx.seed, depth=READS + 40, timeout=900,
@@ -173,7 +181,7 @@ def run(ctx):
         n_big = _dedupe(big, big[0])
         if n_big != 1:
             raise Infra("Gen_FuseRO big: expected one behaviour, got %d" % n_big)
-        sets.append(("big", big[0], [64, 4096], 1, []))
+        sets.append(("big", big[0], [64, 4096] if th else [64], 1, []))
 
     # ---- 3. self-test of the checker, then the real mount in both modes
     def one(name, beh, leaf, sh, more):
